@@ -91,9 +91,13 @@ class Primitive(DaeObject):
         inputs[:] = [input for input in inputs
                      if not isinstance(localscope.get(input[2][1:]), dict)]
 
-        # append the dereferenced dicts
+        # append the dereferenced dicts; a binding of <vertices> that the primitive
+        # also lists itself (as the writer does for the inputs it derived from
+        # <vertices>) is the same input, not a second one
+        listed = [tuple(input) for input in inputs]
         for a in to_append:
-            inputs.append(a)
+            if tuple(a) not in listed:
+                inputs.append(a)
 
         vertex_inputs = []
         normal_inputs = []
